@@ -121,6 +121,15 @@ def main():
         broken.append(("harness", traceback.format_exc()[-2500:]))
         runs = []
     for r in runs:
+        hits = r.get("known_hits") or []
+        if hits:
+            listed = [f for f in load_known_findings() if f.get("property") == prop and f.get("status") == "known"]
+            if listed:
+                line = f"KNOWN-FINDING: property={prop} {listed[0]['id']} {hits[0]['scenario']}: {hits[0]['detail'][:120]}"
+                if line not in known_lines:
+                    known_lines.append(line)
+            else:
+                failures.extend({"oracle": "unlisted-known-pattern", **h} for h in hits)
         for f in r.get("oracle_failures", []):
             failures.append(f)
         for m in r.get("model_mismatches", []):
